@@ -252,19 +252,27 @@ func (p *BlockPipeline) Submit(ctx context.Context, blockType uint, rawCbor []by
 
 	// Count the item before it becomes visible to the workers so that
 	// PendingCount never under-reports it.
+	verifLock()
 	p.outstanding.Add(1)
+	verifTraceUnlock(evSubBegin, item.SequenceNumber())
+	vst := verifStamp()
 
 	select {
 	case p.submitChan <- item:
+		verifTraceAt(vst, evSubOk, nil, item.SequenceNumber())
 		p.sequenceCounter.Add(1)
 		p.metrics.RecordSubmit()
 		return nil
 	case <-ctx.Done():
 		// Nothing was enqueued and no sequence number was consumed.
+		verifLock()
 		p.outstanding.Add(-1)
+		verifTraceUnlock(evSubFail, item.SequenceNumber())
 		return ctx.Err()
 	case <-p.ctx.Done():
+		verifLock()
 		p.outstanding.Add(-1)
+		verifTraceUnlock(evSubFailStop, item.SequenceNumber())
 		return ErrPipelineStopped
 	}
 }
@@ -301,11 +309,13 @@ func (p *BlockPipeline) Stop() error {
 	// This must happen before acquiring submitMu.Lock() to avoid deadlock:
 	// Submit() holds RLock while blocking on channel, and we need it to unblock
 	// via ctx.Done() before we can acquire the write lock.
+	verifTrace(evStopCancel, nil, 0, 0)
 	p.cancel()
 
 	// Now acquire write lock to ensure no Submit() calls are in progress.
 	// Any Submit() blocked on channel send will now return via ctx.Done().
 	p.submitMu.Lock()
+	verifTrace(evStopClose0, nil, 0, 0)
 	p.stopped.Store(true)
 	// Close input channel to signal shutdown
 	close(p.submitChan)
@@ -313,11 +323,13 @@ func (p *BlockPipeline) Stop() error {
 
 	// Wait for decode workers to finish
 	p.decodePool.Stop()
+	verifTrace(evStopClose1, nil, 0, 0)
 	close(p.decodedChan)
 
 	// Wait for validate workers to finish (if validation is enabled)
 	if p.validatePool != nil {
 		p.validatePool.Stop()
+		verifTrace(evStopClose2, nil, 0, 0)
 		close(p.validatedChan)
 	}
 
@@ -325,6 +337,7 @@ func (p *BlockPipeline) Stop() error {
 	p.applyRunner.Stop()
 
 	// Close output channels
+	verifTrace(evStopClose3, nil, 0, 0)
 	close(p.resultsChan)
 	close(p.errorsChan)
 
@@ -348,6 +361,9 @@ func (p *BlockPipeline) PendingCount() int {
 	if !p.started.Load() {
 		return 0
 	}
+	verifLock()
+	defer verifUnlock()
+	verifTrace(evPCRead, nil, 0, int(p.outstanding.Load()))
 	return int(p.outstanding.Load())
 }
 
